@@ -27,15 +27,10 @@ def _floyd_warshall_rust(
 
     # For undirected graphs, expand to bidirectional edges
     if not directed:
-        edge_set: set[tuple[int, int]] = set()
         expanded: list[tuple[int, int, float]] = []
         for u, v, w in edges:
-            if (u, v) not in edge_set:
-                expanded.append((u, v, w))
-                edge_set.add((u, v))
-            if (v, u) not in edge_set:
-                expanded.append((v, u, w))
-                edge_set.add((v, u))
+            expanded.append((u, v, w))
+            expanded.append((v, u, w))
         edges = expanded
 
     result = rust.floyd_warshall(n_nodes, edges)
